@@ -8,6 +8,12 @@ CLAIMED = {
  "C05": dict(level="proof", tech="CBMC code contracts (DFCC) on extracted bodies, loop contracts, ghost-index Skolemisation, queue abstraction",
    text="Contracts on the real bodies of all ten motion-check functions (DiscreteMotionValidator, Dubins/ReedsShepp/Dubins3D validators, SpaceInformation::checkMotion on state vectors), extracted to C on every run: postconditions taken from the property statement (verdict iff all subdivision points valid, last-valid fraction/state, untouched storage on success, exactly one counter) are discharged with loop contracts for every segment count up to 1e9 (quick: bisection forms up to 2^20) and an arbitrary ghost index, i.e. unbounded in the number of subdivision points. A native exhaustive run on the real classes (all counts <= 14/40) is the replay oracle.",
    note=TRUST + "s1 assumed valid; IEEE facts about (double)a/(double)b; std::queue replaced by a ghost-counter multiset abstraction; cached-curve interpolate of Dubins/RS treated as interpolate; StateSpace::validSegmentCount's own arithmetic not covered."),
+ "C18": dict(level="proof", tech="CBMC code contracts (DFCC) and loop-free full-domain CBMC harnesses on extracted bodies",
+   text="Every termination-condition function is loop-free, so each check is a complete proof over the full bit-vector domain of its inputs: PlannerTerminationConditionImpl::eval/terminate (sticky terminate, predicate evaluated exactly once in the direct form, cached value in the periodic form), the or/and/always/never/timed/exact-solution factories (lambda bodies extracted, evaluated twice in sequence against a monotone clock / a changing problem definition), IterationTerminationCondition::eval/reset (false for evaluations 1..n, true afterwards) and CostConvergenceTerminationCondition::processNewSolution (fires exactly when the window is full and the new average lies strictly inside the band computed from the pre-state average).",
+   note=TRUST + "Floating-point * and / in processNewSolution are trusted external operations (recorded in ghost slots); fewer than 2^32-1 evaluations of the iteration condition; the periodic evaluation thread itself (lag <= one period) is concurrency and not covered."),
+ "C04": dict(level="proof", tech="loop-free full-domain CBMC harnesses + DFCC loop contract (cost fold) on extracted bodies; bounded CBMC for the solution set",
+   text="Reduced scope: the ranking and cost-algebra layer every planner funnels through. Proved for all non-NaN inputs: PlannerSolution::operator< is a strict weak order and realises the ranking of the property text (exact before approximate, smaller difference, objective-satisfying first, better cost); OptimizationObjective::isCostBetterThan/isCostEquivalentTo/betterCost/isSatisfied/isFinite/combineCosts (+ MaximizeMinClearance and Minimax overrides) including 'meets the objective exactly when better than the threshold'; PathGeometric::cost is the left fold initial/motion/terminal (unbounded, loop contract, ghost index). Bounded (<= 4/6 solutions): PlannerSolutionSet::add/getTopSolution/isApproximate/isOptimized/getDifference hand out the best-ranked solution first.",
+   note=TRUST + "NOT covered: that each optimizing planner's stored cost is >= the true path cost and >= the admissible bound, and monotonicity across solve() calls (planner solve() bodies are not under contract). std::sort modelled by insertion sort over the extracted comparator."),
  "C11": dict(level="proof", tech="CBMC code contracts (DFCC + cvc5) for the sift loops, bounded CBMC (SAT) for whole-structure operations",
    text="Unbounded (loop-contract) proofs of BinaryHeap::percolateUp and percolateDown for every heap of up to 65535/32767 elements: heap order at an arbitrary ghost slot and handle integrity for an arbitrary ghost element, discharged one obligation per cvc5 process. Every public operation (insert, bulk insert, remove, pop, update, rebuild, buildFrom, sort, clear, top, getContent) is additionally verified, with callees inlined, for ALL heaps of up to N elements (N=15; build/sort N=6-7; thorough 31/15) with fully symbolic contents against whole-view postconditions (order, handles, size = live elements, multiset change, events). The bounded units are labelled bounded in the evidence and are not counted as proof; the level 'proof' refers to the two sift units.",
    note=TRUST + "Strict-weak-order comparator (8-bit rank keys are then WLOG); 16-bit element references in the unbounded units; callers are not yet verified against the sift contracts (bounded only); narrowing conversions treated as two's complement."),
